@@ -22,6 +22,12 @@ further functions through Scheduler.callLater, core.call_later and core.raiseLat
 Pinger configurations: "fake" (detsched's counter pinger; pongAll on an empty pinger blocks and is reported) and
 "real" (pox.lib.util's own make_pinger / PipePinger code running over detsched's virtual pipes: util.os is shimmed).
 
+Scenario a also has: every form of core.raiseLater (class / class + keywords / instance; listener in place, or registered by
+the hand-over submitted just before), functions handed over with positional and keyword arguments (also keywords named self /
+func through the core wrappers), threads that wait for their own hand-overs ("w"), and cooperative tasks waiting in Select()
+on descriptors that foreign threads make readable (["io", k]), so that the hub's select() reports its wake-up pipe, task
+descriptors and the call-later pinger in every combination.
+
 Oracles are history invariants written from the property text (exactly once, on the scheduler thread,
 per-thread order, noticed at the virtual instant of submission; queued at most once / never lost; no
 task step inside a section; one holder / hand-over to exactly one waiter / no waiter on a free lock).
@@ -59,7 +65,10 @@ RULE = ("a case is a scenario (a: foreign threads x call-later ops, b: concurren
         "wake-up signal of one hand-off (static list WINDOW_PATTERNS in pvf/props/c07.py: fast_schedule's membership test / "
         "append / break_idle, Scheduler.run's empty test / idle, idle's wait / clear, callLater's create-or-reuse and append / "
         "ping, CallLaterTask.run's pongAll / popleft, ScheduleTask.run's test / fast_schedule, registerSelect's put / ping, "
-        "_select's pong / drain, SyncTask / Synchronizer lock handshake, and the marked points inside a section / task step); "
+        "_select's pong / drain, SyncTask / Synchronizer lock handshake, and the marked points inside a section / task step), or "
+        "(scenario a) when one select() of the hub returned its own wake-up pipe together with a descriptor a task waits for, when "
+        "an event was handed over while the hand-over that registers its only listener was still queued, or when a function was "
+        "handed over with a keyword argument named like a parameter of the hand-off functions (self, func); "
         "scenario d is non-trivial when at least one release handed the lock to a waiting task; distinct by SHA-1 of the case")
 ASSUMPTIONS = [
   "thread switches happen only at source-line boundaries of the traced recoco/core functions and at blocking primitives; "
@@ -82,13 +91,21 @@ EXHAUSTIVE_SCOPE = {
            "PipePinger: one non-default choice at a forced switch followed by one pre-emption inside PipePinger.ping/pong/pong_all; the same deviation enumeration (<= 1) with the scheduler under test not being recoco.defaultScheduler, and "
            "(threaded hub, base order 0) with util's real PipePinger over virtual pipes; call-later bursts of N in {1, 2, 1023, "
            "1024, 1025, 2047, 2048, 2049} from one thread x inside/outside synchronized() x with/without warm-up x both hubs x "
-           "both base orders, and six two-thread splits, default schedule, real PipePinger; opcode-level switch points inside "
+           "both base orders, and six two-thread splits, default schedule, real PipePinger; one burst of 65537 (one more than the wake-up "
+           "pipe holds) submitted in one slice by a handed-over function, inline hub (thorough: 65535..65537, both hubs, also inside "
+           "synchronized()); opcode-level switch points inside "
            "CallLaterTask.callLater / CallLaterTask.run / Scheduler.callLater only: <= 1 deviation for 2 threads x 1 callLater + 1 "
            "follow-up (with/without warm-up, both hubs); all 27 three-wrapper sequences submitted from a handed-over function and "
            "from a task, 3 scheduler configurations, default schedule; Scheduler(startInThread=False) run by another thread / by "
            "its creator: <= 1 deviation for a and b with the creator among the submitters, plus for b (creator != runner) one "
            "pre-emption of the creator in schedule/fast_schedule followed by one of the running thread in ScheduleTask.run / "
-           "fast_schedule / cycle",
+           "fast_schedule / cycle; all sequences of length <= 2 over {Scheduler.callLater, core.call_later, raiseLater with event as "
+           "class / class + keyword / instance, on a source listened to before / since just now / only once the hand-over submitted "
+           "just before has run} from a foreign thread (inside / outside synchronized()), from a handed-over function and from a "
+           "task, both hubs, default schedule, and <= 1 deviation for listener + event from one thread; every wrapper x 0-2 "
+           "positional x keyword-name set (ordinary names; self / func through the core wrappers) from the three kinds of submitter; "
+           "all thread programs of length <= 3 over {callLater, wait-for-own, feed-descriptor} that feed at least once x five shapes "
+           "of tasks waiting in Select() x both hubs x with/without warm-up, default schedule, and <= 1 deviation for the smallest",
   "thorough": "as quick with <= 2 deviations (<= 3 for a with 2 threads x 1 op, threaded hub, base order 0); d: every triple of "
               "length-3 programs on one lock and every pair of length-3 programs on two locks",
 }
@@ -108,9 +125,14 @@ WINDOW_PATTERNS = [
   ("Scheduler.schedule", ["if task in self._ready:", "self.fast_schedule(task, first)", "st = ScheduleTask(self, task)", "st.start("]),
   ("Scheduler.run", ["if len(self._ready) == 0:", "self._selectHub.idle()", "if self._hasQuit: break", "r = self.cycle()"]),
   ("Scheduler.cycle", ["t = self._ready.popleft()", "rv = t.execute()", "self._ready.append(t)"]),
-  ("Scheduler.callLater", ["with self._lock:", "if self._callLaterTask is None:", "self._callLaterTask = CallLaterTask()",
-                           "self._callLaterTask.start(", "self._callLaterTask.callLater(func, *args, **kw)"]),
-  ("CallLaterTask.callLater", ["self._calls.append((func,args,kw))", "self._pinger.ping()"]),
+  # (a tuple lists alternative spellings of one line: the receiver / function parameters may be named self / func or _self / _func)
+  ("Scheduler.callLater", [("with self._lock:", "with _self._lock:"),
+                           ("if self._callLaterTask is None:", "if _self._callLaterTask is None:"),
+                           ("self._callLaterTask = CallLaterTask()", "_self._callLaterTask = CallLaterTask()"),
+                           ("self._callLaterTask.start(", "_self._callLaterTask.start("),
+                           ("self._callLaterTask.callLater(func, *args, **kw)", "_self._callLaterTask.callLater(_func, *args, **kw)")]),
+  ("CallLaterTask.callLater", [("self._calls.append((func,args,kw))", "_self._calls.append((_func,args,kw))"),
+                               ("self._pinger.ping()", "_self._pinger.ping()")]),
   ("CallLaterTask.run", ["yield Select([self._pinger], None, None)", "self._pinger.pongAll()", "e = self._calls.popleft()"]),
   ("ScheduleTask.run", ["if self._task in self._scheduler._ready:", "self._scheduler.fast_schedule(self._task, True)", "yield False"]),
   ("SelectHub.idle", ["self._event.wait(CYCLE_MAXIMUM)", "self._event.clear()", "self._select(self._tasks, {})"]),
@@ -206,10 +228,15 @@ def setup():
     f = _resolve(R, name)
     lines = set()
     for p in pats:
-      try:
-        lines |= D.lines_matching(f, [p])
-      except HarnessError:
+      found = set()
+      for alt in ((p,) if isinstance(p, str) else p):
+        try:
+          found |= D.lines_matching(f, [alt])
+        except HarnessError:
+          pass
+      if not found:
         m.missing.append("%s: %s" % (name, p))      # tolerated: the tree under test may have dropped the line
+      lines |= found
     m.windows[f] = lines
   for c in m.pinger_codes:     # every line of ping / pong / pong_all is a window (flag or pipe access)
     m.windows[c] = set(ln for _, _, ln in c.co_lines() if ln is not None and ln != c.co_firstlineno)
@@ -221,9 +248,15 @@ def setup():
       RE.Event.__init__(self)
       self.tag = tag
 
+  class EvA(RE.Event):
+    """an event whose constructor takes whatever positional / keyword arguments the submitter gives"""
+    def __init__(self, tag, *a, **kw):
+      RE.Event.__init__(self)
+      self.tag, self.a, self.kw = tag, a, kw
+
   class Src(RE.EventMixin):
-    _eventMixin_events = set([Ev])
-  m.Ev, m.Src = Ev, Src
+    _eventMixin_events = set([Ev, EvA])
+  m.Ev, m.Src, m.EvA = Ev, Src, EvA
 
   class HTask(R.BaseTask):
     """Harness task: run() is given by a generator function; hash is a small int so that set order
@@ -288,6 +321,8 @@ class _Obs(object):
     self.time_passes = False  # the scenario lets virtual time pass on purpose (no "needed the polling timeout" verdict)
     self.tail = None          # optional: run by the main thread after the foreign threads were joined
     self.patches = []         # optional: extra context managers for the run
+    self.flags = {}           # scenario-specific facts for the evidence labels / the non-trivial rule
+    self.excs = []            # (key, msg) of exceptions judged by the scenario itself
 
   def tick(self):
     self.seq += 1
@@ -316,6 +351,43 @@ class _TracebackShim(object):
 # --------------------------------------------------------------------------- scenario bodies
 # each returns (before_threads(s), [thread bodies], snapshot(), judge(out, obs, final_snapshot))
 
+_A_TWO = ("rq", "rQ")          # ops that hand over two functions (listener registration, then the event)
+_A_NONE = ("w",)               # ops that hand over nothing
+
+
+def _a_count(op):
+  """number of functions the scenario-a op hands over"""
+  if isinstance(op, list):
+    return op[1] if op[0] == "b" else 0 if op[0] == "io" else 1
+  op = op.split(":")[0]
+  return 2 if op in _A_TWO else 0 if op in _A_NONE else 1
+
+
+class _FakeFd(object):
+  """A descriptor for detsched's virtual select: readable while fed and not yet taken."""
+  def __init__(self, k):
+    self.k = k
+    self.count = 0
+    self.fed = 0
+
+  def feed(self):
+    self.count += 1
+    self.fed += 1
+
+  def take(self):
+    n, self.count = self.count, 0
+    return n
+
+  def fileno(self):
+    return 200000 + self.k
+
+  def v_readable(self):
+    return self.count > 0
+
+  def __repr__(self):
+    return "<fake fd %d n=%d>" % (self.k, self.count)
+
+
 def _scn_a(p, ds, obs, m):
   R, P = m.R, m.P
   progs = p["threads"]      # per thread: ops "cl" | "co" | "rl" | ["b", N] (N consecutive Scheduler.callLater) |
@@ -327,28 +399,41 @@ def _scn_a(p, ds, obs, m):
                                  # race with the scheduler still working on theirs), each further one after quiescence
   ncreator = int(p.get("creator", 0))  # submissions by the main thread (the scheduler's creator) while the foreign threads run
   task_ops = list(p.get("task") or [])  # submissions made by a cooperative task in one step
+  # p["io"] = [[reads, timeout8], ...]: cooperative task k waits `reads` times in Select([fd_k], timeout=timeout8/8 s or
+  # none) and ends; thread op ["io", k] makes fd_k readable (as a peer's data would), so the select hub has descriptors of
+  # its own to report next to its wake-up pipe.  Thread op "w": the thread waits until everything it has handed over so far
+  # has run (the usual "hand over and wait for the result" pattern), so that its next op falls behind the scheduler's work.
+  io_spec = [list(x) for x in (p.get("io") or [])]
+  fds = [_FakeFd(k) for k in range(len(io_spec))]
+  iolog = []                     # (k, bytes taken, fd was in the returned read list, on scheduler thread, vtime)
+  io_left = [x[0] for x in io_spec]
+  feeds = []                     # (k, vtime)
+  ran = {}
   MAIN = len(progs)
   nested = {}
   counts = {}
   for i, pr in enumerate(progs):
     counts[i] = 0
     for t, op in enumerate(pr):
-      if isinstance(op, list) and op[0] == "b":
-        counts[i] += op[1]
-      else:
-        counts[i] += 1
-        if isinstance(op, list) and op[0] == "n":
-          nested[(i, t)] = MAIN + 2 + len(nested)
-          counts[nested[(i, t)]] = len(op[1])
+      counts[i] += _a_count(op)
+      if isinstance(op, list) and op[0] == "n":
+        nested[(i, t)] = MAIN + 2 + len(nested)
+        counts[nested[(i, t)]] = sum(_a_count(x) for x in op[1])
   counts[MAIN] = ncreator + ntail
   TASK = MAIN + 1
-  counts[TASK] = len(task_ops)
+  counts[TASK] = sum(_a_count(x) for x in task_ops)
   expected = [(sid, j) for sid in sorted(counts) for j in range(counts[sid])]
   nextj = dict((sid, 0) for sid in counts)
 
-  def mk(i, j, t0, then=None, exc=None):
+  refused = set()
+
+  def mk(i, j, t0, then=None, exc=None, expect=None):
     def f(*a, **kw):
       log.append((i, j, _rt.current_thread() is obs.sched_thread, t0, ds.vtime()))
+      ran[i] = ran.get(i, 0) + 1
+      if expect is not None and [list(a), kw] != expect:
+        obs.fail("call-arguments", "scenario a: function %r was handed over with arguments %r but was called with %r"
+                 % ((i, j), expect, [list(a), kw]), scn="a")
       if then is not None:
         then()
       if exc is not None:
@@ -364,6 +449,20 @@ def _scn_a(p, ds, obs, m):
     exc = None
     if ":" in op:
       op, exc = op.split(":")
+    if op in _A_TWO:
+      # a source nobody listens to yet: first hand over the function that starts listening, then the event for it
+      # (per-thread submission order puts the listener in place before the event is raised)
+      nextj[sid] = j + 2
+      src = m.Src()
+      P.POXCore.call_later(obs.core, mk(sid, j, ds.vtime(), lambda: src.addListener(m.Ev, lambda ev: ev.tag())))
+      f = mk(sid, j + 1, ds.vtime(), then, exc)
+      if not any(e[0] == sid and e[1] == j for e in log):
+        obs.flags["listener-still-queued"] = obs.flags.get("listener-still-queued", 0) + 1
+      if op == "rq":
+        P.POXCore.raiseLater(obs.core, src, m.Ev, f)       # event given as class + constructor arguments
+      else:
+        P.POXCore.raiseLater(obs.core, src, m.Ev(f))       # event given as an instance
+      return
     f = mk(sid, j, ds.vtime(), then, exc)
     if op == "cl":
       s.callLater(f)
@@ -371,20 +470,81 @@ def _scn_a(p, ds, obs, m):
       P.POXCore.call_later(obs.core, f)
     elif op == "rl":
       P.POXCore.raiseLater(obs.core, obs.src, m.Ev, f)
+    elif op == "ri":
+      P.POXCore.raiseLater(obs.core, obs.src, m.Ev(f))
+    elif op == "rk":
+      P.POXCore.raiseLater(obs.core, obs.src, m.Ev, tag=f)
+    elif op == "rp":     # a fresh source the submitter has just started listening to itself
+      src = m.Src()
+      src.addListener(m.Ev, lambda ev: ev.tag())
+      P.POXCore.raiseLater(obs.core, src, m.Ev, f)
     else:
       raise HarnessError("bad op %r" % (op,))
+
+  def wait_own(sid):
+    want = nextj[sid]
+    if hold:       # inside synchronized() the scheduler stands still: waiting for it there would be the caller's deadlock
+      return
+    if _rt.current_thread() is obs.sched_thread:
+      raise HarnessError("scenario a: op 'w' on the scheduler thread")
+    if not ds.block(lambda: ran.get(sid, 0) >= want, 3 * CYCLE_MAX + 1, "F%d: wait for own hand-overs" % sid):
+      obs.fail("call-lost", "scenario a: a thread waited %d s for the %d functions it had handed over, %d had run"
+               % (3 * CYCLE_MAX + 1, want, ran.get(sid, 0)), scn="a")
+
+  def submit_args(sid, wrapper, npos, names):
+    """["k", wrapper, npos, [names]]: hand over a function together with npos positional and the named keyword arguments.
+    The core wrappers take their own parameters as _self / _func / _obj "in case the user wants to specify self as a keyword
+    argument", so any other keyword name is the caller's to use with them (names that collide with Scheduler.callLater's
+    own documented signature are not generated for the direct call)."""
+    s = obs.s
+    j = nextj[sid]
+    nextj[sid] = j + 1
+    pos = [["p", x] for x in range(npos)]
+    kw = dict((n, ["k", n]) for n in names)
+    f = mk(sid, j, ds.vtime(), None, None, [pos, kw])
+    if set(names) & set(["self", "func"]):
+      obs.flags["keyword-named-like-parameter"] = 1
+    try:
+      if wrapper == "cl":
+        s.callLater(f, *pos, **kw)
+      elif wrapper == "co":
+        P.POXCore.call_later(obs.core, f, *pos, **kw)
+      elif wrapper == "rl":
+        P.POXCore.raiseLater(obs.core, obs.src, m.EvA, f, *pos, **kw)
+      else:
+        raise HarnessError("bad wrapper %r" % (wrapper,))
+    except TypeError as e:
+      if exc_is_from_harness(e):
+        raise
+      refused.add((sid, j))
+      ran[sid] = ran.get(sid, 0) + 1       # (a thread that waits for its hand-overs does not wait for this one)
+      obs.excs.append((exc_key(e, clause="call-refused", scn="a"),
+                       "scenario a: handing over a function through %s with %d positional and keyword arguments %r raised %r on the "
+                       "submitting thread: the function is not run" % (
+                           {"cl": "Scheduler.callLater", "co": "core.call_later", "rl": "core.raiseLater"}[wrapper], npos,
+                           sorted(names), e)))
 
   def submit_ops(sid, ops, where=None):
     for t, op in enumerate(ops):
       if isinstance(op, list):
-        if op[0] == "b":
+        if op[0] == "k":
+          submit_args(sid, op[1], int(op[2]), list(op[3]))
+        elif op[0] == "b":
           for _ in range(op[1]):
             submit_one(sid, "cl")
         elif op[0] == "n" and where is not None:
           nsid, nops = nested[(where, t)], op[1]
           submit_one(sid, "cl", lambda nsid=nsid, nops=nops: submit_ops(nsid, nops))
+        elif op[0] == "io" and fds:
+          fd = fds[op[1] % len(fds)]
+          feeds.append((fd.k, ds.vtime()))
+          fd.feed()
+        elif op[0] == "io":
+          pass
         else:
           raise HarnessError("bad op %r" % (op,))
+      elif op == "w":
+        wait_own(sid)
       else:
         submit_one(sid, op)
 
@@ -393,10 +553,35 @@ def _scn_a(p, ds, obs, m):
     return
     yield 0
 
+  def io_gen(task):
+    k = task._h - 10
+    to8 = io_spec[k][1]
+    while io_left[k] > 0:
+      rv = yield (R.Select([fds[k]], None, None, to8 / 8.0) if to8 else R.Select([fds[k]], None, None))
+      io_left[k] -= 1
+      inlist = bool(rv) and fds[k] in rv[0]
+      iolog.append((k, fds[k].take(), inlist, _rt.current_thread() is obs.sched_thread, ds.vtime()))
+
   def before(s):
     obs.core = types.SimpleNamespace(scheduler=s)
     obs.src = m.Src()
     obs.src.addListener(m.Ev, lambda ev: ev.tag())
+    obs.src.addListener(m.EvA, lambda ev: ev.tag(*ev.a, **ev.kw))
+    for k in range(len(io_spec)):
+      m.HTask(10 + k, io_gen).start(s)
+    if io_spec:
+      hubo = s._selectHub
+      inner_select = hubo._select_func
+
+      def counting_select(rl, wl, xl, timeout):
+        ro, wo, xo = inner_select(rl, wl, xl, timeout)
+        if hubo._pinger in ro and (len(ro) > 1 or wo or xo):
+          obs.flags["hub-pinger-with-descriptor"] = obs.flags.get("hub-pinger-with-descriptor", 0) + 1
+        elif len(ro) > 1:
+          obs.flags["several-descriptors"] = obs.flags.get("several-descriptors", 0) + 1
+        return ro, wo, xo
+      hubo._select_func = counting_select
+      ds.wait_quiescent("a: i/o tasks settle in their Select")
     if warm:
       done = []
       s.callLater(lambda: done.append(1))
@@ -433,12 +618,26 @@ def _scn_a(p, ds, obs, m):
     return run
 
   def snap():
+    if fds:      # unread data on a descriptor whose task is (still) waiting for it
+      pend = [k for k in range(len(fds)) if fds[k].count and io_left[k] > 0]
+      if pend:
+        obs.fail("io-not-noticed", "scenario a: descriptor(s) %r were made readable by a foreign thread but the task selecting on "
+                 "them had not been resumed when every thread was blocked" % (pend,), scn="a")
     return list(log)
 
   def judge(out, final):
+    for e in iolog:
+      if not e[3]:
+        out.fail("step-wrong-thread", "scenario a: the task selecting on descriptor %d was resumed off the scheduler thread" % e[0],
+                 scn="a")
+      elif not e[1] and not io_spec[e[0]][1]:
+        out.fail("resumed-without-io", "scenario a: the task selecting (without timeout) on descriptor %d was resumed although "
+                 "nothing had been fed to it (returned lists contained it: %r)" % (e[0], e[2]), scn="a")
+      elif e[1] and not e[2]:
+        out.fail("select-result", "scenario a: descriptor %d was readable but the Select returned without it" % e[0], scn="a")
     q = obs.q if obs.q is not None else []
     ran_q = set((i, j) for i, j, _, _, _ in q)
-    missing = [ij for ij in expected if ij not in ran_q]
+    missing = [ij for ij in expected if ij not in ran_q and ij not in refused]
     fin_by = {}
     for e in final:
       fin_by.setdefault((e[0], e[1]), e)
@@ -1087,6 +1286,9 @@ def _execute(case):
     out.fail("blocked-forever", "scenario %s: threads blocked for ever while only the pollers keep waking: %r" % (scn, res.stalled), scn=scn)
   for clause, msg, key in obs.viol:
     out.fail(clause, msg, **key)
+  for key, msg in obs.excs:
+    if not any(v["key"] == key for v in out.violations):
+      out.violations.append({"key": key, "msg": msg})
   if scn != "d" and obs.q_adv and not obs.time_passes:
     out.fail("wakeup-needs-poll", "scenario %s: virtual time had to advance %r before the system became quiescent: every thread was "
              "blocked while work was pending" % (scn, res.time_advances[:obs.q_adv]), scn=scn)
@@ -1118,9 +1320,14 @@ def _execute(case):
     out.label("a:function-raises")
   if scn == "c" and case["p"].get("quit"):
     out.label("c:quit-during-slice")
-  if scn == "a" and any(isinstance(op, list) and op[0] == "b" for pr in case["p"]["threads"] for op in pr):
-    tot = sum(op[1] if isinstance(op, list) and op[0] == "b" else 1 for pr in case["p"]["threads"] for op in pr)
-    out.label("a:burst", "a:burst-total:%s" % (tot if tot in BURSTS else ("multiple-of-1024" if tot % 1024 == 0 else "other")))
+  if scn == "a":
+    flat = [x for pr in case["p"]["threads"] for o in pr for x in ([o] + (o[1] if isinstance(o, list) and o[0] == "n" else []))]
+    if any(isinstance(op, list) and op[0] == "b" for op in flat):
+      tot = sum(_a_count(op) for op in flat)
+      big = max(op[1] for op in flat if isinstance(op, list) and op[0] == "b")
+      out.label("a:burst", "a:burst-total:%s" % (tot if tot in BURSTS else ("multiple-of-1024" if tot % 1024 == 0 else "other")))
+      if big >= 65535:
+        out.label("a:burst-at-pipe-capacity:%d" % big)
   out.label("scn:" + scn, "hub:" + ("threaded" if hub else "inline"), "sched:" + ("dev" if "devs" in sc else "random"))
   if sc.get("on") in ("op", "opwin"):
     out.label("sched:opcode-level")
@@ -1138,7 +1345,26 @@ def _execute(case):
       if stt.get(k):
         out.label("d:" + k)
   else:
-    out.nontrivial = bool(wp)
+    out.nontrivial = (bool(wp) or bool(obs.flags.get("hub-pinger-with-descriptor")) or bool(obs.flags.get("listener-still-queued"))
+                      or bool(obs.flags.get("keyword-named-like-parameter")))
+  for k in sorted(obs.flags):
+    out.label("a:" + k)
+  if scn == "a":
+    allops = [x for pr in case["p"]["threads"] for o in pr for x in ([o] + (o[1] if isinstance(o, list) and o[0] == "n" else []))]
+    allops += list(case["p"].get("task") or [])
+    kinds = set((o[0] if isinstance(o, list) else o.split(":")[0]) for o in allops)
+    for k, lab in (("w", "a:waits-for-own"), ("io", "a:feeds-descriptor"), ("ri", "a:raise-instance"), ("rk", "a:raise-kwargs"),
+                   ("rp", "a:raise-fresh-source"), ("rq", "a:listener-then-class-event"), ("rQ", "a:listener-then-instance-event")):
+      if k in kinds:
+        out.label(lab)
+    if case["p"].get("io"):
+      out.label("a:io-tasks")
+    kops = [o for o in allops if isinstance(o, list) and o[0] == "k"]
+    if kops:
+      out.label("a:with-arguments")
+      for o in kops:
+        if set(o[3]) & set(["self", "func"]):
+          out.label("a:keyword-named-self-or-func:" + o[1])
   if out.violations:
     out.info = {"decisions": len(res.decisions), "preemptions": [(d["k"], d["thread"], d["site"], d["to"]) for d in res.preemptions],
                 "trace_tail": list(res.trace)[-60:]}
@@ -1333,6 +1559,92 @@ def _enum_pinger_windows(tier):
   return gen
 
 
+_RL_FORMS = ["cl", "co", "rl", "ri", "rk", "rp", "rq", "rQ"]
+
+
+def _enum_raise_later_forms(tier):
+  """Every form of core.raiseLater (event as class + positional / keyword constructor arguments, event as an instance;
+  listener registered long before, registered by the submitter just before, or registered by a function the same
+  submitter handed over just before and that is still queued) next to the two call-later wrappers: all sequences of
+  length <= 2 from a foreign thread (inside / outside synchronized()), from a handed-over function and from a task,
+  default schedule; <= 1 deviation (thorough: 2) for one thread handing over listener + event."""
+  def gen():
+    seqs = [[a] for a in _RL_FORMS] + [[a, b] for a in _RL_FORMS for b in _RL_FORMS]
+    for ops in seqs:
+      for hub in (True, False):
+        for hold in (False, True):
+          yield {"scn": "a", "hub": hub, "p": {"threads": [list(ops)], "hold": hold, "tail": 1},
+                 "sched": {"on": "win", "base": 0, "devs": []}}
+        yield {"scn": "a", "hub": hub, "p": {"threads": [["cl", ["n", list(ops)]]], "task": list(ops)},
+               "sched": {"on": "win", "base": 0, "devs": []}}
+    for p in ({"threads": [["rq"]]}, {"threads": [["rQ"], ["rp"]]}):
+      for hub in (True, False):
+        for c in _dev_cases("a", p, hub, 0, 1 if tier == "quick" else 2):
+          yield c
+  return gen
+
+
+_KW_PLAIN = [[], ["x"], ["args", "kw"], ["task", "x", "n"]]
+_KW_PARAM = [["self"], ["func"], ["self", "func"], ["func", "x"]]     # names of the hand-off functions' own parameters
+
+
+def _kw_sets(wrapper):
+  """keyword-name sets a caller may use with the wrapper: Scheduler.callLater(self, func, ...) documents its parameter names,
+  the core wrappers document that theirs are out of the way; raiseEvent is a bound method, so `self` cannot reach an event"""
+  return _KW_PLAIN + ([] if wrapper == "cl" else [x for x in _KW_PARAM if wrapper == "co" or "self" not in x])
+
+
+def _enum_arguments(tier):
+  """Functions handed over together with 0-2 positional arguments and keyword arguments (ordinary names, and -- through the
+  core wrappers -- names that the hand-off functions use for their own parameters), from a foreign thread, from a handed-over
+  function and from a task; default schedule."""
+  def gen():
+    for w in ("cl", "co", "rl"):
+      for npos in (0, 1, 2):
+        for names in _kw_sets(w):
+          for hub in (True, False):
+            ops = [["k", w, npos, list(names)], "cl"]
+            yield {"scn": "a", "hub": hub, "p": {"threads": [ops + ["w", "co"]], "tail": 1},
+                   "sched": {"on": "win", "base": 0, "devs": []}}
+            yield {"scn": "a", "hub": hub, "p": {"threads": [["cl", ["n", ops]]], "task": ops},
+                   "sched": {"on": "win", "base": 0, "devs": []}}
+  return gen
+
+
+def _enum_hub_descriptors(tier):
+  """Scenario a with cooperative tasks waiting in Select() on descriptors of their own while foreign threads hand over
+  functions, wait for them and make the descriptors readable: the select hub's select() then reports its wake-up pipe, task
+  descriptors and the call-later task's pinger in every combination.  All thread programs of length <= 3 over {callLater,
+  wait-for-own, feed} that feed at least once x task shapes (1 or 2 Selects, with / without a long timeout, two tasks) x both
+  hubs x with / without warm-up, each followed by one hand-over after quiescence; default schedule, plus <= 1 deviation
+  (thorough: 2) for the smallest one."""
+  def gen():
+    def progs(alpha):
+      for n in (1, 2, 3):
+        for pr in itertools.product(alpha, repeat=n):
+          pr = list(pr)
+          if not any(isinstance(o, list) for o in pr):
+            continue
+          if pr[0] == "w" or any(pr[i] == "w" and pr[i - 1] == "w" for i in range(1, n)):
+            continue
+          yield pr
+    one = list(progs(["cl", "w", ["io", 0]]))
+    two = [pr for pr in progs(["cl", "w", ["io", 0], ["io", 1]]) if any(o == ["io", 1] for o in pr)]
+    for io, prs in (([[1, 0]], one), ([[2, 0]], one), ([[1, 256]], one), ([[1, 0], [1, 0]], two), ([[2, 0], [1, 256]], two)):
+      for pr in prs:
+        for hub in (True, False):
+          for warm in (False, True):
+            yield {"scn": "a", "hub": hub, "p": {"threads": [pr], "io": io, "warm": warm, "tail": 1},
+                   "sched": {"on": "win", "base": 0, "devs": []}}
+    for io in ([[1, 0]], [[2, 0]]):
+      for threads in ([["cl", "w", ["io", 0]]], [["cl"], [["io", 0]]]):
+        for hub in (True, False):
+          p = {"threads": threads, "io": io, "warm": True, "tail": 1}
+          for c in _dev_cases("a", p, hub, 0, 1 if tier == "quick" else 2):
+            yield c
+  return gen
+
+
 BURSTS = [1, 2, 1023, 1024, 1025, 2047, 2048, 2049]
 
 
@@ -1357,6 +1669,17 @@ def _enum_bursts(tier):
           yield case([[["b", split[0]]], [["b", split[1]]]], False, warm, hub, 0, "real")
     yield case([[["b", 1024], "co", "rl"]], True, True, True, 0, "real")
     yield case([["cl", ["b", 1023]]], True, True, True, 0, "real")
+    # bursts around the capacity of the wake-up pipe (64 KiB): more pings than the pipe holds while nobody drains it, because
+    # the submitter is the scheduler thread itself (one slice of a handed-over function) or holds synchronized()
+    for n in ((65537,) if tier == "quick" else (65535, 65536, 65537)):
+      for hub in ((False,) if tier == "quick" else (True, False)):
+        c = case([["cl", ["n", [["b", n]]]]], False, False, hub, 0, "real")
+        c["p"]["tail"] = 1
+        yield c
+        if tier != "quick":
+          c = case([[["b", n]]], True, True, hub, 0, "real")
+          c["p"]["tail"] = 1
+          yield c
   return gen
 
 
@@ -1415,11 +1738,18 @@ def _strategy(tier):
   big = tier == "thorough"
 
   def s():
-    op = st.sampled_from(["cl", "cl", "cl", "co", "co", "rl", "rl", "cl:E", "cl:S", "co:K", "rl:S", "cl:G"])
-    nop = st.one_of(op, op, op, st.tuples(st.just("n"), st.lists(op, min_size=1, max_size=4)).map(list))
-    pa = st.fixed_dictionaries({"threads": st.lists(st.lists(nop, min_size=1, max_size=3), min_size=1, max_size=3),
+    op = st.sampled_from(["cl", "cl", "cl", "co", "co", "rl", "rl", "cl:E", "cl:S", "co:K", "rl:S", "cl:G",
+                          "ri", "rk", "rp", "rq", "rq", "rQ", "rq:E", "ri:S"])
+    top = st.one_of(st.just("w"), st.tuples(st.just("io"), st.integers(0, 1)).map(list))     # foreign threads only
+    kop = st.sampled_from(["cl", "co", "co", "rl"]).flatmap(lambda w: st.tuples(
+        st.just("k"), st.just(w), st.integers(0, 2), st.sampled_from(_kw_sets(w))).map(list))
+    op = st.one_of(op, op, op, op, kop)
+    nop = st.one_of(op, op, op, top, st.tuples(st.just("n"), st.lists(op, min_size=1, max_size=4)).map(list))
+    ios = st.lists(st.tuples(st.integers(1, 3), st.sampled_from([0, 0, 256])).map(list), min_size=1, max_size=2)
+    pa = st.fixed_dictionaries({"threads": st.lists(st.lists(nop, min_size=1, max_size=4), min_size=1, max_size=3),
                                 "tail": st.sampled_from([0, 0, 1, 2]), "creator": st.sampled_from([0, 0, 1, 2]),
-                                "task": st.one_of(st.just([]), st.lists(op, min_size=1, max_size=4))})
+                                "task": st.one_of(st.just([]), st.lists(op, min_size=1, max_size=4)),
+                                "io": st.one_of(st.just([]), ios), "warm": st.booleans()})
     pb = st.fixed_dictionaries({"wakers": st.lists(st.integers(1, 3), min_size=1, max_size=3), "inthread": st.integers(0, 2),
                                 "z": st.sampled_from([0, 1, 1, 2]), "wait": st.sampled_from(["F", "S"]),
                                 "creator": st.sampled_from([0, 0, 1, 2])})
@@ -1473,4 +1803,7 @@ def plan(tier):
           Enum("raising-functions", _enum_raising_functions(tier), shards=2),
           Enum("quit-during-slice", _enum_quit_during_slice(tier), shards=2),
           Enum("creator-runner", _enum_creator_runner(tier), shards=6 if tier == "quick" else 16),
+          Enum("raise-later-forms", _enum_raise_later_forms(tier), shards=4),
+          Enum("handed-over-arguments", _enum_arguments(tier), shards=2),
+          Enum("hub-descriptors", _enum_hub_descriptors(tier), shards=4 if tier == "quick" else 16),
           Hyp("random-schedules", _strategy(tier), examples=n, shards=12 if tier == "quick" else 16)]
